@@ -265,6 +265,11 @@ impl ClientRoutesUpdate {
     }
 }
 
+#[cfg(scylla_verif)]
+#[path = "update_verif.rs"]
+#[allow(missing_docs, unreachable_pub, unnameable_types)]
+pub(crate) mod verif;
+
 #[cfg(test)]
 mod tests {
 
